@@ -209,12 +209,34 @@ fn map_s<St: Stream + 'static, F: FnMut(St::Item) -> Val + Unpin + 'static>(st: 
     })
 }
 
+/// Future adapter converting the output (harness side, trivial). Deliberately
+/// not an `async` block: an async block that a panic unwound through destroys
+/// its locals - the combinator - and refuses to be polled again, and the
+/// harness wants to be able to poll a combinator on after a caught panic.
+pub struct MapF<Fu, F> {
+    inner: Pin<Box<Fu>>,
+    f: Option<F>,
+}
+impl<Fu: Future, O, F: FnOnce(Fu::Output) -> O + Unpin> Future for MapF<Fu, F> {
+    type Output = O;
+    fn poll(self: Pin<&mut Self>, cx: &mut Context<'_>) -> Poll<O> {
+        let this = self.get_mut();
+        match this.inner.as_mut().poll(cx) {
+            Poll::Pending => Poll::Pending,
+            Poll::Ready(x) => Poll::Ready((this.f.take().expect("harness: MapF polled after completion"))(x)),
+        }
+    }
+}
+fn map_f<Fu: Future + 'static, O: 'static, F: FnOnce(Fu::Output) -> O + Unpin + 'static>(fu: Fu, f: F) -> Pin<Box<dyn Future<Output = O>>> {
+    Box::pin(MapF { inner: Box::pin(fu), f: Some(f) })
+}
+
 fn fin_join<Fu>(f: Fu) -> BoxF
 where
     Fu: Future + 'static,
     Fu::Output: TupleOut,
 {
-    Box::pin(async move { Val::list(f.await.into_vec()) })
+    map_f(f, |out| Val::list(out.into_vec()))
 }
 
 fn fin_try_join<Fu, T, E>(f: Fu) -> BoxR
@@ -223,11 +245,9 @@ where
     T: TupleOut,
     E: IntoVal,
 {
-    Box::pin(async move {
-        match f.await {
-            Ok(t) => Ok(Val::list(t.into_vec())),
-            Err(e) => Err(e.into_val()),
-        }
+    map_f(f, |r| match r {
+        Ok(t) => Ok(Val::list(t.into_vec())),
+        Err(e) => Err(e.into_val()),
     })
 }
 
@@ -242,13 +262,11 @@ where
     X: TakeVal,
     E: std::ops::DerefMut<Target = [X; N]>,
 {
-    Box::pin(async move {
-        match f.await {
-            Ok(v) => Ok(v.into_val()),
-            Err(mut agg) => {
-                let v = take_all(&mut agg[..]);
-                Err(Val::list(v))
-            }
+    map_f(f, |r| match r {
+        Ok(v) => Ok(v.into_val()),
+        Err(mut agg) => {
+            let v = take_all(&mut agg[..]);
+            Err(Val::list(v))
         }
     })
 }
@@ -261,13 +279,11 @@ where
     X: TakeVal,
     E: std::ops::DerefMut<Target = Vec<X>>,
 {
-    Box::pin(async move {
-        match f.await {
-            Ok(v) => Ok(v.into_val()),
-            Err(mut agg) => {
-                let v = take_all(&mut agg[..]);
-                Err(Val::list(v))
-            }
+    map_f(f, |r| match r {
+        Ok(v) => Ok(v.into_val()),
+        Err(mut agg) => {
+            let v = take_all(&mut agg[..]);
+            Err(Val::list(v))
         }
     })
 }
@@ -320,7 +336,7 @@ pub fn build_fnode(parent: NodeId, idx: usize, c: &ChildSpec) -> FNode {
                     inner: Some(b),
                     mark: DropMark(id),
                 };
-                FNode::Wrapped(WrapF { id, inner: Some(Box::pin(async move { Val::res(p.await) })) })
+                FNode::Wrapped(WrapF { id, inner: Some(map_f(p, Val::res)) })
             }
             Flavor::S => panic!("harness: stream child in a future combinator"),
         },
@@ -344,7 +360,7 @@ pub fn build_rnode(parent: NodeId, idx: usize, c: &ChildSpec) -> RNode {
                     inner: Some(b),
                     mark: DropMark(id),
                 };
-                RNode::Wrapped(WrapR { id, inner: Some(Box::pin(async move { Ok(p.await) })) })
+                RNode::Wrapped(WrapR { id, inner: Some(map_f(p, Ok)) })
             }
             Flavor::S => panic!("harness: stream child in a future combinator"),
         },
